@@ -59,3 +59,17 @@ def region_is_err_only(fn, region, target):
     err, _ = exit_classes(fn)
     hit, _ = search(fn, [target], set(err), loop_model=False, targets=return_blocks(fn))
     return hit is None
+
+
+def switch_arm_regions(fn, sw):
+    """{variant|'_': blocks executed only when that arm is taken}: forward reach from each arm target
+    without re-entering the switch block, minus what every arm reaches (the join / loop latch)."""
+    g = cfg(fn)
+    reaches = {v: g.reach_from([t], removed={sw['block']}) for v, t in sw['arms'].items()}
+    if sw['otherwise'] is not None:
+        reaches['_'] = g.reach_from([sw['otherwise']], removed={sw['block']})
+    if len(reaches) > 1:
+        common = set.intersection(*reaches.values())
+    else:
+        common = set()
+    return {v: r - common for v, r in reaches.items()}
